@@ -26,11 +26,27 @@ package engine_test
 //    trained range" clause and are only counted.
 //  Ranking: results i before j in the engine's order with d32_i - B_i > d32_j + B_j would
 //    contradict the two bounds; reported separately because it also covers the final sort.
+//  Second distance path. hnsw.Index.ComputeDistanceToVector (own copy of the query preparation
+//    and of the int8 rescaling; reached by Engine.VExtractSubgraph with a guide query) is held to
+//    the same per-pair bound ("distances computed on compressed vectors differ from the float32
+//    distance by a correspondingly bounded amount"), and VExtractSubgraph's keep/prune decision
+//    (distance <= threshold) must be consistent with it ("perturbs rankings only among
+//    near-ties"): a linked node with d32 + B < threshold must be kept, one with d32 - B >
+//    threshold must be pruned. For int8 only queries whose components lie inside [-A, A] both as
+//    supplied and after normalisation are judged (the literal "inside the trained range").
+//  Self distance on int8 with clipped components (clause "zero between a stored vector and
+//    itself", "values beyond the trained range are clipped"): the query is the vector as
+//    supplied, the index holds the same vector normalised by the same float32 index; the two
+//    pre-rounding values differ by <= k*127 << 1 code unit, so after clip + round the two code
+//    vectors differ by at most 1 per component: angle <= asin(sqrt(n)/|code|), with
+//    |code| >= |clip(b)|*127/A - sqrt(n)/2. Whatever is clipped, the reported distance must stay
+//    below 1 - cos(that angle) (+ float32 slack); a norm taken before clipping breaks this.
 
 import (
 	"fmt"
 	"math"
 	"sort"
+	"strings"
 	"testing"
 
 	"github.com/sanonone/kektordb/internal/zzverif/vexec"
@@ -91,6 +107,58 @@ type c18eCase struct {
 	ids    []string
 	raw    map[string][]float32 // as supplied to VAdd
 	stored map[string][]float32 // float32 value handed to the encoder of the current precision
+	gone   map[string]bool      // ids deleted by the case (a search result naming one is not C18's business: skipped, counted)
+	selfOK map[string]bool      // ids whose int8 code was made from the float32 cosine index's own normalised value (VCompress)
+	kmax   int                  // > 0: searches ask for at most kmax results and the second distance path visits kmax ids (large cases)
+}
+
+func (c *c18eCase) k() int {
+	if c.kmax > 0 && c.kmax < len(c.ids) {
+		return c.kmax
+	}
+	return len(c.ids)
+}
+
+func (c *c18eCase) hnsw() *hnsw.Index {
+	idx, ok := c.e.DB.GetVectorIndex(c.name)
+	if !ok {
+		c.cs.Fail("index %s not found", c.name)
+	}
+	h, ok := idx.(*hnsw.Index)
+	if !ok {
+		c.cs.Fail("index %s is not an hnsw index", c.name)
+	}
+	return h
+}
+
+func absMaxOf(v []float32) float32 {
+	var m float32
+	for _, x := range v {
+		if x < 0 {
+			x = -x
+		}
+		if x > m {
+			m = x
+		}
+	}
+	return m
+}
+
+// c18eUnit returns q scaled to unit length (float64 arithmetic, one rounding per component).
+func c18eUnit(q []float32) []float32 {
+	var ss float64
+	for _, x := range q {
+		ss += float64(x) * float64(x)
+	}
+	out := append([]float32(nil), q...)
+	if ss == 0 {
+		return out
+	}
+	n := math.Sqrt(ss)
+	for i := range out {
+		out[i] = float32(float64(out[i]) / n)
+	}
+	return out
 }
 
 func (c *c18eCase) absMax() float32 {
@@ -128,6 +196,27 @@ func (c *c18eCase) readAll(when string, supplied map[string][]float32) map[strin
 		}
 		out[id] = append([]float32(nil), vd.Vector...)
 		c.ctx.Count("engine.vget_checked."+string(c.cfg.Prec), 1)
+	}
+	// the bulk read entry point must hand out the same stored vectors (same policy)
+	many, err := c.e.VGetMany(c.name, c.ids)
+	if err != nil {
+		c.cs.Fail("%s: VGetMany(%d ids): %v", when, len(c.ids), err)
+	}
+	seen := map[string]bool{}
+	for _, vd := range many {
+		if _, ok := supplied[vd.ID]; !ok || seen[vd.ID] {
+			c.cs.Fail("%s: VGetMany returned id %q (not requested, or twice)", when, vd.ID)
+		}
+		seen[vd.ID] = true
+		if ok, why := vexec.VecMatch(c.cfg, supplied[vd.ID], vd.Vector, a); !ok {
+			c.cs.Attach("supplied", supplied[vd.ID])
+			c.cs.Attach("got", vd.Vector)
+			c.cs.Fail("%s: VGetMany(...)[%s] (%s/%s): %s", when, vd.ID, c.cfg.Metric, c.cfg.Prec, why)
+		}
+		c.ctx.Count("engine.vgetmany_checked."+string(c.cfg.Prec), 1)
+	}
+	if len(many) != len(c.ids) {
+		c.cs.Fail("%s: VGetMany returned %d of %d live ids", when, len(many), len(c.ids))
 	}
 	return out
 }
@@ -201,27 +290,97 @@ func (c *c18eCase) refDist(q []float32, b []float32, a float64) (d32, bound floa
 	}
 }
 
-func (c *c18eCase) searchCheck(when string, nq int) {
+// genQuery draws a query: a stored vector itself (self = its id), near a stored vector, or of the
+// magnitude class of the data.
+func (c *c18eCase) genQuery() (q []float32, self string) {
 	r := c.cs.R
-	a := float64(c.absMax())
-	for qi := 0; qi < nq; qi++ {
-		q := make([]float32, c.dim)
-		switch r.Intn(4) {
-		case 0: // a stored vector itself (d(a,a))
-			copy(q, c.raw[vkit.Pick(r, c.ids)])
-		case 1: // near a stored vector
-			copy(q, c.raw[vkit.Pick(r, c.ids)])
-			for i := range q {
-				q[i] += r.F32() * 0.05 * (float32(math.Abs(float64(q[i]))) + 1e-3)
+	q = make([]float32, c.dim)
+	switch r.Intn(4) {
+	case 0: // a stored vector itself (d(a,a)); on int8 preferably one with components beyond the trained range
+		self = vkit.Pick(r, c.ids)
+		if c.cfg.Prec == distance.Int8 && r.Chance(0.6) {
+			a := c.absMax()
+			var clipped []string
+			for _, id := range c.ids {
+				if c.selfOK[id] && absMaxOf(c.stored[id]) > a {
+					clipped = append(clipped, id)
+				}
 			}
-		default:
-			src := c.raw[vkit.Pick(r, c.ids)]
-			for i := range q { // same magnitude class as the data
-				q[i] = r.F32() * (float32(math.Abs(float64(src[r.Intn(c.dim)]))) + 1e-3) * 1.5
+			if len(clipped) > 0 {
+				self = vkit.Pick(r, clipped)
 			}
 		}
-		c.cs.Op("%s: VSearchWithScores(%s, q=%v, k=%d)", when, c.name, q, len(c.ids))
-		res, err := c.e.VSearchWithScores(c.name, q, len(c.ids))
+		copy(q, c.raw[self])
+	case 1: // near a stored vector
+		copy(q, c.raw[vkit.Pick(r, c.ids)])
+		for i := range q {
+			q[i] += r.F32() * 0.05 * (float32(math.Abs(float64(q[i]))) + 1e-3)
+		}
+	default:
+		src := c.raw[vkit.Pick(r, c.ids)]
+		for i := range q { // same magnitude class as the data
+			q[i] = r.F32() * (float32(math.Abs(float64(src[r.Intn(c.dim)]))) + 1e-3) * 1.5
+		}
+	}
+	return q, self
+}
+
+// guideQuery is the query handed to the second distance path (ComputeDistanceToVector /
+// VExtractSubgraph). Generator guard for the recorded finding D-C18-3 (that path quantises the
+// query of an int8/cosine index without normalising it): while the finding is listed as "known"
+// the query is given at unit length, which is the one scale at which the missing step does not
+// matter; every other aspect of the path stays exercised.
+func (c *c18eCase) guideQuery(q []float32) []float32 {
+	if c.cfg.Prec == distance.Int8 && c.ctx.IsKnown("D-C18-3") {
+		c.ctx.Count("engine.guide_queries_unit_length_guard_D-C18-3", 1)
+		return c18eUnit(q)
+	}
+	return q
+}
+
+// refDistGuide is refDist for the second distance path: for int8 the pair is judged only if the
+// query lies inside the trained range as supplied, too (refDist already demands it of the
+// normalised query) — the literal reading of "for vectors inside the trained range".
+func (c *c18eCase) refDistGuide(q []float32, b []float32, a float64) (d32, bound float64, judged bool) {
+	d32, bound, judged = c.refDist(q, b, a)
+	if judged && c.cfg.Prec == distance.Int8 {
+		for _, x := range q {
+			if math.Abs(float64(x)) > a {
+				return d32, 0, false
+			}
+		}
+	}
+	return
+}
+
+// selfBoundInt8: bound on the distance an int8/cosine index may report between a vector as
+// supplied and its own stored code (see the header), or ok=false when the code is too short for
+// a claim. b is the float32 (unit-length) value the code was made from.
+func c18eSelfBoundInt8(b []float32, a float64) (bound float64, ok bool) {
+	if a == 0 {
+		return 0, false
+	}
+	n := float64(len(b))
+	var ss float64
+	for _, x := range b {
+		v := math.Max(-a, math.Min(a, float64(x)))
+		ss += v * v
+	}
+	l := math.Sqrt(ss)*127/a - math.Sqrt(n)/2
+	if l <= 2*math.Sqrt(n) {
+		return 0, false
+	}
+	ang := math.Asin(math.Sqrt(n) / l)
+	return 1 - math.Cos(ang) + 8*c18eU + 1e-12, true
+}
+
+func (c *c18eCase) searchCheck(when string, nq int) {
+	a := float64(c.absMax())
+	h := c.hnsw()
+	for qi := 0; qi < nq; qi++ {
+		q, self := c.genQuery()
+		c.cs.Op("%s: VSearchWithScores(%s, q=%v, k=%d)", when, c.name, q, c.k())
+		res, err := c.e.VSearchWithScores(c.name, q, c.k())
 		if err != nil {
 			c.cs.Fail("%s: VSearchWithScores: %v", when, err)
 		}
@@ -233,6 +392,10 @@ func (c *c18eCase) searchCheck(when string, nq int) {
 		rows := make([]row, 0, len(res))
 		seen := map[string]bool{}
 		for _, x := range res {
+			if c.gone[x.ID] {
+				c.ctx.Count("engine.results_naming_a_deleted_id_skipped", 1)
+				continue
+			}
 			st, ok := c.stored[x.ID]
 			if !ok {
 				c.cs.Fail("%s: search returned id %q that was never stored", when, x.ID)
@@ -262,6 +425,23 @@ func (c *c18eCase) searchCheck(when string, nq int) {
 			} else {
 				c.ctx.Count("engine.distances_outside_claim."+string(c.cfg.Prec), 1)
 			}
+			// "zero between a stored vector and itself", whatever was clipped (int8; ids whose code
+			// was made by VCompress from the float32 index's own unit-length value)
+			if x.ID == self && c.cfg.Prec == distance.Int8 && c.selfOK[self] {
+				if sb, ok := c18eSelfBoundInt8(st, a); ok {
+					if math.IsNaN(deng) || deng > sb || deng < -sb {
+						c.cs.Attach("query", q)
+						c.cs.Attach("stored_f32", st)
+						c.cs.Attach("abs_max", a)
+						c.cs.Fail("%s: %s/%s dim %d: distance between %q as supplied and its own stored code is %.6g; clip + round of the same values can differ by one code unit per component only: at most %.3g",
+							when, c.cfg.Metric, c.cfg.Prec, c.dim, self, deng, sb)
+					}
+					c.ctx.Count("engine.int8_self_distances_judged", 1)
+					if !judged {
+						c.ctx.Count("engine.int8_self_distances_judged_with_clipped_components", 1)
+					}
+				}
+			}
 			rows = append(rows, row{x.ID, deng, d, bd, judged})
 		}
 		for i := 0; i < len(rows); i++ {
@@ -283,7 +463,114 @@ func (c *c18eCase) searchCheck(when string, nq int) {
 		}
 		c.ctx.Count("engine.queries."+string(c.cfg.Prec), 1)
 		c.ctx.Count("engine.results_returned", int64(len(res)))
-		c.ctx.Count("engine.results_possible", int64(len(c.ids)))
+		c.ctx.Count("engine.results_possible", int64(c.k()))
+
+		// the second distance path, for every live vector: same pair, same bound
+		g := c.guideQuery(q)
+		c.cs.Op("%s: ComputeDistanceToVector(id, q) for %d live ids (query of the search above%s)", when, c.k(), map[bool]string{true: ", at unit length", false: ""}[&g[0] != &q[0]])
+		visit := c.ids
+		if c.k() < len(c.ids) {
+			visit = nil
+			for _, p := range c.cs.R.Perm(len(c.ids))[:c.k()] {
+				visit = append(visit, c.ids[p])
+			}
+		}
+		for _, id := range visit {
+			dc, err := h.ComputeDistanceToVector(id, g)
+			if err != nil {
+				c.cs.Fail("%s: ComputeDistanceToVector(%s) of a live vector: %v", when, id, err)
+			}
+			d, bd, judged := c.refDistGuide(g, c.stored[id], a)
+			if !judged {
+				c.ctx.Count("engine.guide_distances_outside_claim."+string(c.cfg.Prec), 1)
+				continue
+			}
+			if math.IsNaN(dc) || math.Abs(dc-d) > bd {
+				c.cs.Attach("query", g)
+				c.cs.Attach("stored_f32", c.stored[id])
+				c.cs.Attach("abs_max", a)
+				c.cs.Fail("%s: %s/%s dim %d: ComputeDistanceToVector(%q) = %.10g; float32 distance %.10g; |difference| %.4g exceeds the derived bound %.4g",
+					when, c.cfg.Metric, c.cfg.Prec, c.dim, id, dc, d, math.Abs(dc-d), bd)
+			}
+			c.ctx.Count("engine.guide_distances_judged."+string(c.cfg.Prec), 1)
+		}
+	}
+}
+
+// subgraphCheck links a root to a handful of live vectors and lets VExtractSubgraph prune them
+// with a guide query and a threshold placed between two of their float32 distances: the
+// keep/prune decision of every linked vector whose float32 distance is further from the
+// threshold than its bound is determined. (Links are made by this step only, at the end of a
+// case, so that nothing else in the case depends on the graph.)
+func (c *c18eCase) subgraphCheck(when string, nq int) {
+	r := c.cs.R
+	if len(c.ids) < 4 {
+		return
+	}
+	a := float64(c.absMax())
+	perm := r.Perm(len(c.ids))
+	root := c.ids[perm[0]]
+	var targets []string
+	for _, k := range perm[1:min(len(perm), 13)] {
+		targets = append(targets, c.ids[k])
+	}
+	c.cs.Op("%s: VLink(%s -> %v, relation c18rel)", when, root, targets)
+	for _, t := range targets {
+		if err := c.e.VLink(c.name, root, t, "c18rel", "", 1, nil); err != nil {
+			c.ctx.Count("engine.subgraph_skipped_link_refused", 1) // linking is not C18's business
+			return
+		}
+	}
+	for qi := 0; qi < nq; qi++ {
+		q, _ := c.genQuery()
+		g := c.guideQuery(q)
+		type tg struct {
+			id     string
+			d, bd  float64
+			judged bool
+		}
+		var ts []tg
+		var ds []float64
+		for _, t := range targets {
+			d, bd, judged := c.refDistGuide(g, c.stored[t], a)
+			ts = append(ts, tg{t, d, bd, judged})
+			ds = append(ds, d)
+		}
+		sort.Float64s(ds)
+		k := r.Intn(len(ds))
+		thr := ds[k] + 0.05
+		if k+1 < len(ds) {
+			thr = (ds[k] + ds[k+1]) / 2
+		}
+		c.cs.Op("%s: VExtractSubgraph(%s, root %s, [c18rel], depth 1, guide=%v, threshold=%v)", when, c.name, root, g, thr)
+		sg, err := c.e.VExtractSubgraph(c.name, root, []string{"c18rel"}, 1, 0, g, thr)
+		if err != nil {
+			c.cs.Fail("%s: VExtractSubgraph: %v", when, err)
+		}
+		in := map[string]bool{}
+		for _, nd := range sg.Nodes {
+			in[nd.ID] = true
+		}
+		for _, t := range ts {
+			switch {
+			case !t.judged:
+				c.ctx.Count("engine.subgraph_decisions_outside_claim."+string(c.cfg.Prec), 1)
+			case t.d+t.bd < thr && !in[t.id]:
+				c.cs.Attach("query", g)
+				c.cs.Attach("stored_f32", c.stored[t.id])
+				c.cs.Attach("abs_max", a)
+				c.cs.Fail("%s: %s/%s dim %d: VExtractSubgraph pruned %q: float32 distance to the guide query %.8g (bound %.3g) is below the threshold %.8g", when, c.cfg.Metric, c.cfg.Prec, c.dim, t.id, t.d, t.bd, thr)
+			case t.d-t.bd > thr && in[t.id]:
+				c.cs.Attach("query", g)
+				c.cs.Attach("stored_f32", c.stored[t.id])
+				c.cs.Attach("abs_max", a)
+				c.cs.Fail("%s: %s/%s dim %d: VExtractSubgraph kept %q: float32 distance to the guide query %.8g (bound %.3g) is above the threshold %.8g", when, c.cfg.Metric, c.cfg.Prec, c.dim, t.id, t.d, t.bd, thr)
+			case t.d+t.bd < thr || t.d-t.bd > thr:
+				c.ctx.Count("engine.subgraph_decisions_judged."+string(c.cfg.Prec), 1)
+			default:
+				c.ctx.Count("engine.subgraph_decisions_near_threshold."+string(c.cfg.Prec), 1)
+			}
+		}
 	}
 }
 
@@ -302,6 +589,9 @@ func c18ePercentileOK(vals []float64, a float64) bool {
 }
 
 func c18eValue(r *vkit.Rand, class string) float32 {
+	if r.Chance(0.01) {
+		return float32(math.Copysign(0, -1)) // negative zero (quantifier: "negative zero")
+	}
 	switch class {
 	case "unit":
 		return r.F32()
@@ -326,8 +616,58 @@ func c18eValue(r *vkit.Rand, class string) float32 {
 	return r.F32()
 }
 
+func c18eVector(r *vkit.Rand, class string, dim int) []float32 {
+	v := make([]float32, dim)
+	nonzero := false
+	for k := range v {
+		v[k] = c18eValue(r, class)
+		nonzero = nonzero || v[k] != 0
+	}
+	if !nonzero {
+		v[0] = 1
+	}
+	return v
+}
+
+func c18eAbs(vs ...[]float32) []float64 {
+	var out []float64
+	for _, v := range vs {
+		for _, x := range v {
+			out = append(out, math.Abs(float64(x)))
+		}
+	}
+	return out
+}
+
+func (c *c18eCase) reopen(how string) {
+	c.cs.Op("%s", how)
+	if err := c.e.Close(); err != nil {
+		c.cs.Fail("Close: %v", err)
+	}
+	c.e = nil
+	e2, err := engine.Open(c.opts)
+	if err != nil {
+		c.cs.Fail("engine.Open after restart: %v", err)
+	}
+	c.e = e2
+}
+
+func (c *c18eCase) drop(id string) {
+	for i, x := range c.ids {
+		if x == id {
+			c.ids = append(c.ids[:i:i], c.ids[i+1:]...)
+			break
+		}
+	}
+	delete(c.raw, id)
+	delete(c.stored, id)
+	delete(c.selfOK, id)
+	c.gone[id] = true
+}
+
 func TestVerifC18Engine(t *testing.T) {
 	vkit.Run(t, "C18", func(ctx *vkit.Ctx) {
+		c18eProbes(ctx)
 		ctx.Group("compress", ctx.N(48, 1200), func(cs *vkit.Case) {
 			r := cs.R
 			target := vkit.Pick(r, []distance.PrecisionType{distance.Float16, distance.Int8})
@@ -341,8 +681,15 @@ func TestVerifC18Engine(t *testing.T) {
 				classes = []string{"unit", "x100", "x0.01", "skewed", "unit"}
 			}
 			class := vkit.Pick(r, classes)
-			dim := vkit.Pick(r, []int{2, 3, 8, 16, 33, 64})
+			dims := []int{1, 2, 3, 8, 16, 33, 64, 128, 257}
+			if !ctx.Quick() {
+				dims = append(dims, 768)
+			}
+			dim := vkit.Pick(r, dims)
 			n := r.Range(20, ctx.N(120, 300))
+			if dim > 64 {
+				n = r.Range(20, 60) // cost: the pairwise ranking oracle and the logged queries grow with n*dim
+			}
 			if target == distance.Int8 && r.Chance(0.3) {
 				n = r.Range(40, 90)
 				dim = vkit.Pick(r, []int{16, 33}) // > 1000 components: the percentile excludes the largest
@@ -352,7 +699,8 @@ func TestVerifC18Engine(t *testing.T) {
 			if err != nil {
 				cs.Fail("engine.Open: %v", err)
 			}
-			c := &c18eCase{ctx: ctx, cs: cs, e: e, opts: opts, name: "c18", dim: dim, raw: map[string][]float32{}, stored: map[string][]float32{}}
+			c := &c18eCase{ctx: ctx, cs: cs, e: e, opts: opts, name: "c18", dim: dim, raw: map[string][]float32{}, stored: map[string][]float32{},
+				gone: map[string]bool{}, selfOK: map[string]bool{}}
 			defer func() {
 				if c.e != nil {
 					c.e.Close()
@@ -362,38 +710,88 @@ func TestVerifC18Engine(t *testing.T) {
 			if direct {
 				prec = target
 			}
-			c.cfg = vexec.IndexCfg{Name: c.name, Metric: metric, Prec: prec, M: 8, EfC: vkit.Pick(r, []int{16, 200})}
+			c.cfg = vexec.IndexCfg{Name: c.name, Metric: metric, Prec: prec, M: vkit.Pick(r, []int{4, 8, 16, 32}), EfC: vkit.Pick(r, []int{16, 200})}
 			cs.Op("VCreate(%s, %s, M=%d, efC=%d, %s) then %d vectors of dim %d, class %s", c.name, metric, c.cfg.M, c.cfg.EfC, prec, n, dim, class)
 			if err := e.VCreate(c.name, metric, c.cfg.M, c.cfg.EfC, prec, "", nil, nil, nil); err != nil {
 				cs.Fail("VCreate: %v", err)
 			}
-			var batch []types.BatchObject
+			// insert paths: single VAdd, or one half through VAddBatch — as the first or as the
+			// second half (batch-first: the first vectors an int8 index ever sees arrive in a batch)
 			useBatch := r.Chance(0.4)
+			batchFirst := useBatch && r.Chance(0.35)
+			zeroAt := -1
+			if r.Chance(0.25) {
+				zeroAt = r.Range(1, n-1) // one all-zero vector, by the engine's own "no vector given" path (dimension known by then)
+			}
+			inBatch := func(i int) bool { return useBatch && (i < n/2) == batchFirst }
+			var batch []types.BatchObject
+			var firstVec []float32     // the first vector the index received
+			var firstBatch [][]float32 // ... when it arrived inside a batch: that batch
+			flush := func() {
+				if len(batch) == 0 {
+					return
+				}
+				cs.Op("VAddBatch(%d vectors)", len(batch))
+				if err := e.VAddBatch(c.name, batch); err != nil {
+					cs.Fail("VAddBatch: %v", err)
+				}
+				batch = nil
+			}
 			for i := 0; i < n; i++ {
 				id := fmt.Sprintf("v%03d", i)
-				v := make([]float32, dim)
-				nonzero := false
-				for k := range v {
-					v[k] = c18eValue(r, class)
-					nonzero = nonzero || v[k] != 0
+				v := c18eVector(r, class, dim)
+				if i == zeroAt {
+					v = make([]float32, dim)
 				}
-				if !nonzero {
-					v[0] = 1
+				if i == 0 {
+					firstVec = v
 				}
 				c.ids = append(c.ids, id)
 				c.raw[id] = v
-				if useBatch && i >= n/2 {
-					batch = append(batch, types.BatchObject{Id: id, Vector: append([]float32(nil), v...)})
+				if inBatch(i) {
+					if i == zeroAt {
+						batch = append(batch, types.BatchObject{Id: id}) // no vector: the zero-vector path of the batch entry point
+						ctx.Count("engine.zero_vectors_stored", 1)
+					} else {
+						batch = append(batch, types.BatchObject{Id: id, Vector: append([]float32(nil), v...)})
+					}
+					if batchFirst {
+						firstBatch = append(firstBatch, v)
+					}
+					continue
+				}
+				flush()
+				if i == zeroAt {
+					cs.Op("VAdd(%s) without a vector (zero vector of the index dimension)", id)
+					if err := e.VAdd(c.name, id, nil, nil); err != nil {
+						cs.Fail("VAdd(%s, no vector): %v", id, err)
+					}
+					ctx.Count("engine.zero_vectors_stored", 1)
 					continue
 				}
 				if err := e.VAdd(c.name, id, append([]float32(nil), v...), nil); err != nil {
 					cs.Fail("VAdd(%s): %v", id, err)
 				}
 			}
-			if len(batch) > 0 {
-				cs.Op("VAddBatch(%d vectors)", len(batch))
-				if err := e.VAddBatch(c.name, batch); err != nil {
-					cs.Fail("VAddBatch: %v", err)
+			flush()
+			// an id is deleted and stored again with another vector: the old value must not come
+			// back, and must not take part in the training of a later VCompress
+			if r.Chance(0.3) {
+				for k := r.Range(1, 3); k > 0; k-- {
+					id := c.ids[r.Range(1, len(c.ids)-1)]
+					if c.raw[id] == nil || id == fmt.Sprintf("v%03d", zeroAt) {
+						continue
+					}
+					v := c18eVector(r, class, dim)
+					cs.Op("VDelete(%s); VAdd(%s, another vector)", id, id)
+					if err := e.VDelete(c.name, id); err != nil {
+						cs.Fail("VDelete(%s): %v", id, err)
+					}
+					if err := e.VAdd(c.name, id, append([]float32(nil), v...), nil); err != nil {
+						cs.Fail("VAdd(%s) after VDelete: %v", id, err)
+					}
+					c.raw[id] = v
+					ctx.Count("engine.ids_deleted_and_stored_again", 1)
 				}
 			}
 			// read-back in the creation precision
@@ -401,8 +799,18 @@ func TestVerifC18Engine(t *testing.T) {
 			if direct {
 				c.stored = c.raw
 				if prec == distance.Int8 {
-					// the index trains on the first vector(s) it sees; later vectors outside that
-					// range are clipped — covered by VecMatch above
+					// "trained range = 99.9th percentile of absolute training values": an index created
+					// in int8 trains on what it receives first — the first vector, or the batch it
+					// arrived in (either training set is accepted)
+					a := float64(c.absMax())
+					okA := c18ePercentileOK(c18eAbs(firstVec), a)
+					if !okA && len(firstBatch) > 0 {
+						okA = c18ePercentileOK(c18eAbs(firstBatch...), a)
+					}
+					if !okA {
+						cs.Attach("first_vector", firstVec)
+						cs.Fail("index created in int8: trained range %v is the 99.9th percentile neither of the first vector received nor of the first batch (%d vectors)", a, len(firstBatch))
+					}
 					ctx.Count("engine.int8_direct_cases", 1)
 				}
 			} else {
@@ -416,9 +824,8 @@ func TestVerifC18Engine(t *testing.T) {
 				if target == distance.Int8 {
 					var vals []float64
 					for _, id := range c.ids {
-						for _, x := range c.stored[id] {
-							vals = append(vals, math.Abs(float64(x)))
-						}
+						vals = append(vals, c18eAbs(c.stored[id])...)
+						c.selfOK[id] = true
 					}
 					a := float64(c.absMax())
 					if !c18ePercentileOK(vals, a) {
@@ -430,59 +837,294 @@ func TestVerifC18Engine(t *testing.T) {
 				}
 				c.readAll("after VCompress", c.stored)
 			}
-			c.searchCheck("index in "+string(c.cfg.Prec), ctx.N(6, 10))
-			restarted := false
-			if r.Chance(0.5) {
+			c.searchCheck("index in "+string(c.cfg.Prec), ctx.N(5, 10))
+			a0 := c.absMax()
+			sameRange := func(when string) {
+				// the range is the 99.9th percentile of the same training values as before
+				if a1 := c.absMax(); a1 != a0 {
+					cs.Fail("%s: trained int8 range is %v, was %v before", when, a1, a0)
+				}
+			}
+			// vacuum: the one product path that writes into the bytes of slots that are not new
+			// (it clears the slots of deleted vectors) — the survivors must keep values and distances
+			vacuumed := false
+			if len(c.ids) > 12 && r.Chance(0.35) {
+				k := r.Range(len(c.ids)/10+1, len(c.ids)*3/10)
+				perm := r.Perm(len(c.ids))
+				var del []string
+				for _, p := range perm[:k] {
+					del = append(del, c.ids[p])
+				}
+				cs.Op("VDelete of %d vectors %v; VTriggerMaintenance(vacuum)", len(del), del)
+				for _, id := range del {
+					if err := c.e.VDelete(c.name, id); err != nil {
+						cs.Fail("VDelete(%s): %v", id, err)
+					}
+					c.drop(id)
+				}
+				if err := c.e.VTriggerMaintenance(c.name, "vacuum"); err != nil {
+					cs.Fail("VTriggerMaintenance(vacuum): %v", err)
+				}
+				c.readAll("after vacuum", c.stored)
+				c.searchCheck("after vacuum, index in "+string(c.cfg.Prec), 2)
+				sameRange("after vacuum")
+				vacuumed = true
+				ctx.Count("engine.vacuum_cases", 1)
+			}
+			// recovery matrix: none / log replay or the snapshot VCompress wrote / an explicit
+			// snapshot / a rewritten log (dequantise -> journal -> requantise)
+			restart := vkit.Pick(r, []string{"none", "none", "reopen", "snapshot+reopen", "rewrite+reopen"})
+			if restart != "none" {
 				// sometimes the vector the int8 range was trained on is deleted first: the
 				// range is state of its own and must come back as it was, whatever the log
 				// still holds
-				if c.cfg.Prec == distance.Int8 && len(c.ids) > 3 && r.Chance(0.5) {
+				if c.cfg.Prec == distance.Int8 && len(c.ids) > 3 && c.ids[0] == "v000" && r.Chance(0.5) {
 					gone := c.ids[0]
 					cs.Op("VDelete(%s) (first vector added)", gone)
 					if err := c.e.VDelete(c.name, gone); err != nil {
 						cs.Fail("VDelete(%s): %v", gone, err)
 					}
-					c.ids = c.ids[1:]
-					delete(c.raw, gone)
-					delete(c.stored, gone)
+					c.drop(gone)
 					ctx.Count("engine.int8_first_vector_deleted_before_restart", 1)
 				}
-				cs.Op("Close + Open")
-				if err := c.e.Close(); err != nil {
-					cs.Fail("Close: %v", err)
+				switch restart {
+				case "snapshot+reopen":
+					cs.Op("SaveSnapshot")
+					if err := c.e.SaveSnapshot(); err != nil {
+						cs.Fail("SaveSnapshot: %v", err)
+					}
+				case "rewrite+reopen":
+					cs.Op("RewriteAOF")
+					if err := c.e.RewriteAOF(); err != nil {
+						cs.Fail("RewriteAOF: %v", err)
+					}
 				}
-				c.e = nil
-				e2, err := engine.Open(opts)
-				if err != nil {
-					cs.Fail("engine.Open after restart: %v", err)
-				}
-				c.e = e2
-				c.readAll("after restart", c.stored)
-				c.searchCheck("after restart, index in "+string(c.cfg.Prec), 3)
-				restarted = true
+				c.reopen("Close + Open")
+				c.readAll("after "+restart, c.stored)
+				c.searchCheck("after "+restart+", index in "+string(c.cfg.Prec), 3)
+				sameRange("after " + restart)
+				ctx.Count("engine.restart."+restart, 1)
 			}
 			// one more insert (a stored vector again, so it lies inside the trained range): the
 			// index grows its tables; what was stored before must keep its values and distances
+			late := false
 			if !direct || prec != distance.Int8 {
 				src := c.ids[r.Intn(len(c.ids))]
-				late := "late"
 				// the value the index holds for src in float32 terms (for a cosine index: the
 				// unit-length vector), so that it lies inside the trained int8 range
 				v := append([]float32(nil), c.stored[src]...)
-				cs.Op("VAdd(%s) = copy of %s (restarted=%v)", late, src, restarted)
-				if err := c.e.VAdd(c.name, late, append([]float32(nil), v...), nil); err != nil {
+				cs.Op("VAdd(late) = copy of %s (restart=%s)", src, restart)
+				if err := c.e.VAdd(c.name, "late", append([]float32(nil), v...), nil); err != nil {
 					cs.Fail("VAdd(late): %v", err)
 				}
-				c.ids = append(c.ids, late)
-				c.raw[late] = v
-				c.stored[late] = c.stored[src]
+				c.ids = append(c.ids, "late")
+				c.raw["late"] = v
+				c.stored["late"] = c.stored[src]
 				c.readAll("after a late insert", c.stored)
-				c.searchCheck("after a late insert, index in "+string(c.cfg.Prec), 4)
+				c.searchCheck("after a late insert, index in "+string(c.cfg.Prec), 3)
+				sameRange("after a late insert")
 				ctx.Count("engine.late_insert_cases", 1)
+				late = true
 			}
+			// a second restart: now the state comes from a snapshot plus the tail of the log
+			again := r.Chance(0.3)
+			if again {
+				c.reopen("Close + Open (second restart: snapshot or log, plus what was journaled since)")
+				c.readAll("after the second restart", c.stored)
+				c.searchCheck("after the second restart, index in "+string(c.cfg.Prec), 2)
+				sameRange("after the second restart")
+				ctx.Count("engine.second_restart_cases", 1)
+			}
+			c.subgraphCheck("guided subgraph, index in "+string(c.cfg.Prec), 2)
 			ctx.Eval(1)
-			ctx.Distinct(fmt.Sprintf("%s/%s/%d/%v/%v/%v", target, class, dim, direct, useBatch, restarted))
+			ctx.Distinct(fmt.Sprintf("%s/%s/%d/%v/%v/%v/%s/%v/%v/%v", target, class, dim, direct, useBatch, batchFirst, restart, vacuumed, late, again))
 			ctx.Sample("engine_case", 2, map[string]any{"ops": cs.Ops()[:min(len(cs.Ops()), 4)]})
 		})
+		// Thorough tier only: index sizes at which VCompress re-inserts in several batches
+		// (5000 per batch) and the quantiser trains on a sample (more than 10 000 vectors: every
+		// k-th vector, so the range is only required to be one of the absolute values and to
+		// leave at most 1 % of the components outside — the sample's 99.9th percentile).
+		ctx.Group("scale", ctx.N(0, 4), func(cs *vkit.Case) {
+			r := cs.R
+			target := vkit.Pick(r, []distance.PrecisionType{distance.Float16, distance.Int8, distance.Int8})
+			metric := distance.Euclidean
+			if target == distance.Int8 {
+				metric = distance.Cosine
+			}
+			dim := 2
+			n := vkit.Pick(r, []int{5001, 10050})
+			opts := vexec.Options(cs.SubDir("data"))
+			e, err := engine.Open(opts)
+			if err != nil {
+				cs.Fail("engine.Open: %v", err)
+			}
+			c := &c18eCase{ctx: ctx, cs: cs, e: e, opts: opts, name: "c18", dim: dim, raw: map[string][]float32{}, stored: map[string][]float32{},
+				gone: map[string]bool{}, selfOK: map[string]bool{}, kmax: 60}
+			defer func() {
+				if c.e != nil {
+					c.e.Close()
+				}
+			}()
+			c.cfg = vexec.IndexCfg{Name: c.name, Metric: metric, Prec: distance.Float32, M: 8, EfC: 16}
+			cs.Op("VCreate(%s, %s, M=8, efC=16, float32) then %d vectors of dim %d in batches of 1000; VCompress(%s)", c.name, metric, n, dim, target)
+			if err := e.VCreate(c.name, metric, 8, 16, distance.Float32, "", nil, nil, nil); err != nil {
+				cs.Fail("VCreate: %v", err)
+			}
+			var batch []types.BatchObject
+			for i := 0; i < n; i++ {
+				id := fmt.Sprintf("v%05d", i)
+				v := c18eVector(r, "unit", dim)
+				c.ids = append(c.ids, id)
+				c.raw[id] = v
+				batch = append(batch, types.BatchObject{Id: id, Vector: append([]float32(nil), v...)})
+				if len(batch) == 1000 || i == n-1 {
+					if err := e.VAddBatch(c.name, batch); err != nil {
+						cs.Fail("VAddBatch: %v", err)
+					}
+					batch = nil
+					ctx.Touch()
+				}
+			}
+			c.stored = c.readAll("after insert", c.raw)
+			if err := e.VCompress(c.name, target); err != nil {
+				cs.Fail("VCompress(%s,%s): %v", c.name, target, err)
+			}
+			ctx.Touch()
+			c.cfg.Prec = target
+			if target == distance.Int8 {
+				var vals []float64
+				for _, id := range c.ids {
+					vals = append(vals, c18eAbs(c.stored[id])...)
+					c.selfOK[id] = true
+				}
+				a := float64(c.absMax())
+				if n <= 10000 {
+					if !c18ePercentileOK(vals, a) {
+						cs.Fail("after VCompress to int8: trained range %v is not the 99.9th percentile of the %d absolute stored components", a, len(vals))
+					}
+				} else {
+					sort.Float64s(vals)
+					k := sort.SearchFloat64s(vals, a)
+					if k >= len(vals) || vals[k] != a {
+						cs.Fail("after VCompress to int8 (%d vectors, sampled training): trained range %v is none of the absolute stored components", n, a)
+					}
+					if above := len(vals) - 1 - k; above*100 > len(vals) {
+						cs.Fail("after VCompress to int8 (%d vectors, sampled training): %d of %d components lie above the trained range %v — not a 99.9th percentile of any 10 %% sample", n, above, len(vals), a)
+					}
+				}
+			}
+			c.readAll("after VCompress", c.stored)
+			c.searchCheck("index in "+string(target), 6)
+			c.reopen("Close + Open")
+			c.readAll("after reopen", c.stored)
+			c.searchCheck("after reopen, index in "+string(target), 3)
+			ctx.Eval(1)
+			ctx.Count("engine.scale_cases", 1)
+			ctx.Distinct(fmt.Sprintf("scale/%s/%d", target, n))
+		})
+	})
+}
+
+// ---------------------------------------------------------------------------------------
+// Fixed scenarios of recorded findings.
+// ---------------------------------------------------------------------------------------
+
+func c18eProbes(ctx *vkit.Ctx) {
+	// D-C18-3: hnsw.Index.ComputeDistanceToVector (Engine.VExtractSubgraph with a guide query)
+	// normalises the query only for a float32 cosine index; on an int8 cosine index the query is
+	// quantised as supplied. A guide query parallel to a stored vector but of small length (every
+	// component inside the trained range, below half a quantisation step) becomes the all-zero
+	// code: the path reports distance 1 for the vector the float32 index (and the search path of
+	// the same int8 index) puts at distance 0, and VExtractSubgraph prunes it.
+	ctx.Probe("D-C18-3", func(cs *vkit.Case) string {
+		opts := vexec.Options(cs.SubDir("data"))
+		e, err := engine.Open(opts)
+		if err != nil {
+			cs.Fail("engine.Open: %v", err)
+		}
+		c := &c18eCase{ctx: ctx, cs: cs, e: e, opts: opts, name: "p", dim: 8, raw: map[string][]float32{}, stored: map[string][]float32{}, gone: map[string]bool{}, selfOK: map[string]bool{}}
+		defer func() { c.e.Close() }()
+		c.cfg = vexec.IndexCfg{Name: c.name, Metric: distance.Cosine, Prec: distance.Float32, M: 8, EfC: 16}
+		cs.Op("VCreate(p, cosine, float32); 40 vectors of dim 8; VLink(v000 -> v005)")
+		if err := e.VCreate(c.name, distance.Cosine, 8, 16, distance.Float32, "", nil, nil, nil); err != nil {
+			cs.Fail("VCreate: %v", err)
+		}
+		for i := 0; i < 40; i++ {
+			id := fmt.Sprintf("v%03d", i)
+			v := make([]float32, c.dim)
+			for k := range v {
+				v[k] = float32(math.Sin(float64(1 + 7*i + 3*k)))
+			}
+			c.ids = append(c.ids, id)
+			c.raw[id] = v
+			if err := e.VAdd(c.name, id, append([]float32(nil), v...), nil); err != nil {
+				cs.Fail("VAdd(%s): %v", id, err)
+			}
+		}
+		if err := e.VLink(c.name, "v000", "v005", "rel", "", 1, nil); err != nil {
+			cs.Fail("VLink: %v", err)
+		}
+		vd, err := e.VGet(c.name, "v005")
+		if err != nil {
+			cs.Fail("VGet(v005): %v", err)
+		}
+		b := append([]float32(nil), vd.Vector...)
+		probe := func(when string, q []float32) (dist float64, kept bool) {
+			dist, err := c.hnsw().ComputeDistanceToVector("v005", q)
+			if err != nil {
+				cs.Fail("%s: ComputeDistanceToVector(v005): %v", when, err)
+			}
+			sg, err := e.VExtractSubgraph(c.name, "v000", []string{"rel"}, 1, 0, q, 0.05)
+			if err != nil {
+				cs.Fail("%s: VExtractSubgraph: %v", when, err)
+			}
+			for _, nd := range sg.Nodes {
+				kept = kept || nd.ID == "v005"
+			}
+			return dist, kept
+		}
+		small := make([]float32, c.dim) // same direction as v005; scale fixed below from the trained range
+		for k := range small {
+			small[k] = c.raw["v005"][k] * 0.001
+		}
+		d32, kept32 := probe("float32 index", small)
+		cs.Op("VCompress(p, int8)")
+		if err := e.VCompress(c.name, distance.Int8); err != nil {
+			cs.Fail("VCompress: %v", err)
+		}
+		c.cfg.Prec = distance.Int8
+		a := float64(c.absMax())
+		for k := range small {
+			small[k] = c.raw["v005"][k] * float32(a/400) // |raw| <= 1: every component below half a step A/254
+		}
+		cs.Op("guide query = v005 as supplied x A/400 = %v (A=%v)", small, a)
+		d, bd, judged := c.refDistGuide(small, b, a)
+		if !judged {
+			cs.Fail("the pair (guide query, v005) is not inside the clause: d32=%v A=%v", d, a)
+		}
+		di8, kept8 := probe("int8 index", small)
+		var dsearch float64 = math.NaN()
+		res, err := e.VSearchWithScores(c.name, small, 40)
+		if err != nil {
+			cs.Fail("VSearchWithScores: %v", err)
+		}
+		for _, x := range res {
+			if x.ID == "v005" {
+				sim := x.Score
+				if x.Breakdown != nil {
+					sim = x.Breakdown.Similarity
+				}
+				dsearch = 1/sim - 1
+			}
+		}
+		var out []string
+		if math.IsNaN(di8) || math.Abs(di8-d) > bd {
+			out = append(out, fmt.Sprintf("cosine/int8 dim 8, guide query parallel to stored vector v005 with every component inside the trained range (A=%.4g): ComputeDistanceToVector(v005) = %.6g; float32 distance %.3g (the same call on the float32 index before VCompress: %.3g; VSearchWithScores on the int8 index for the same pair: %.3g); |difference| %.4g exceeds the derived bound %.4g",
+				a, di8, d, d32, dsearch, math.Abs(di8-d), bd))
+		}
+		if kept32 && !kept8 {
+			out = append(out, "VExtractSubgraph(root v000 -> v005, guide query, threshold 0.05) keeps v005 on the float32 index and prunes it after VCompress to int8")
+		}
+		return strings.Join(out, "; ")
 	})
 }
